@@ -139,7 +139,7 @@ pub struct Ctx<W: Write> {
     pub vpool: std::collections::VecDeque<Version>,
 }
 
-fn hash_of(v: &Version) -> u64 {
+fn hash_of<T: Hash + ?Sized>(v: &T) -> u64 {
     let mut h = DefaultHasher::new();
     v.hash(&mut h);
     h.finish()
@@ -374,10 +374,11 @@ impl<W: Write> Ctx<W> {
                     }
                     _ => return self.skip(c),
                 };
+                // the same register twice is passed as the same reference (`x.intersect(&x)`), as a caller would
                 let res = if c == "isect" {
-                    self.call("intersect", || ra.intersect(&rb))
+                    self.call("intersect", || if a == b { ra.intersect(&ra) } else { ra.intersect(&rb) })
                 } else {
-                    self.call("difference", || ra.difference(&rb))
+                    self.call("difference", || if a == b { ra.difference(&ra) } else { ra.difference(&rb) })
                 };
                 let res = match res {
                     Some(r) => r,
@@ -426,7 +427,7 @@ impl<W: Write> Ctx<W> {
                     (Some(x), Some(y)) => (x, y),
                     _ => return self.skip(c),
                 };
-                let r = self.call("allows_any", || (ra.allows_any(&rb), rb.allows_any(&ra)));
+                let r = self.call("allows_any", || if a == b { (ra.allows_any(&ra), ra.allows_any(&ra)) } else { (ra.allows_any(&rb), rb.allows_any(&ra)) });
                 let i = self.call("intersect", || ra.intersect(&rb).is_some());
                 if let (Some((res, rev)), Some(isome)) = (r, i) {
                     self.emit(json!({"ev":"any","a":a,"b":b,"res":res,"rev":rev,"isome":isome}));
@@ -438,7 +439,7 @@ impl<W: Write> Ctx<W> {
                     (Some(x), Some(y)) => (x, y),
                     _ => return self.skip(c),
                 };
-                let r = self.call("allows_all", || ra.allows_all(&rb));
+                let r = self.call("allows_all", || if a == b { ra.allows_all(&ra) } else { ra.allows_all(&rb) });
                 let y = self.call("allows_any", || ra.allows_any(&rb));
                 let d = self.call("difference", || rb.difference(&ra).is_none());
                 if let (Some(res), Some(any), Some(dnone)) = (r, y, d) {
@@ -731,6 +732,11 @@ impl<W: Write> Ctx<W> {
                         "rcmp": ord_int(b2.cmp(&a2)),
                         "eq": a2 == b2, "ne": a2 != b2, "lt": a2 < b2, "le": a2 <= b2, "gt": a2 > b2, "ge": a2 >= b2,
                         "heq": hash_of(&a2) == hash_of(&b2),
+                        // hashing through a container goes through Hash::hash_slice
+                        "hseq": hash_of(&vec![a2.clone()]) == hash_of(&vec![b2.clone()]) && hash_of(&[a2.clone(), b2.clone()][..]) == hash_of(&[b2.clone(), a2.clone()][..]),
+                        // the by-value provided methods of Ord (a type may override them)
+                        "vmax": ver_to_json(&a2.clone().max(b2.clone())), "vmin": ver_to_json(&a2.clone().min(b2.clone())),
+                        "vmaxr": ver_to_json(&b2.clone().max(a2.clone())), "vminr": ver_to_json(&b2.clone().min(a2.clone())),
                         "maxa": std::ptr::eq(mx, &a2), "mina": std::ptr::eq(mn, &a2),
                         "prea": a2.is_prerelease(),
                     })
@@ -1193,6 +1199,62 @@ impl<W: Write> Ctx<W> {
         self.emit(json!({"ev":"deepops","unit":bytes(&unit),"alts":alts,"ops":ops}));
     }
 
+    /// Two comparators whose tags have `n` identifiers each, on the same tuple: comparison of long identifier lists
+    /// (a version text is limited to 256 bytes, a range text is not). One `deepops` event.
+    pub fn deeptags(&mut self, st: &Value) {
+        let n = st.get("n").and_then(|x| x.as_u64()).unwrap_or(1000);
+        let id = st.get("id").and_then(unbytes).unwrap_or_else(|| "0".into());
+        let ids = vec![id.as_str(); n as usize].join(".");
+        let text = format!(">=1.0.0-{}.1 <1.0.0-{}.5", ids, ids);
+        let other = format!(">=1.0.0-{}.3 <=1.0.0-{}.7", ids, ids);
+        let mut ops: Vec<Value> = Vec::new();
+        macro_rules! timed {
+            ($name:expr, $body:expr) => {{
+                let t0 = Instant::now();
+                let r = self.call($name, $body);
+                let r = match r {
+                    Some(x) => x,
+                    None => return,
+                };
+                ops.push(json!({"name":$name,"us":t0.elapsed().as_micros().min(2_000_000_000) as u64}));
+                r
+            }};
+        }
+        let t = text.clone();
+        let a = timed!("Range::parse", move || Range::parse(&t).ok());
+        let t = other.clone();
+        let b = timed!("Range::parse", move || Range::parse(&t).ok());
+        let (a, b) = match (a, b) {
+            (Some(a), Some(b)) => (a, b),
+            _ => return self.skip("deeptags-unparsed"),
+        };
+        let x = a.clone();
+        let ma = timed!("min_version", move || x.min_version());
+        let x = b.clone();
+        let mb = timed!("min_version", move || x.min_version());
+        if let (Some(ma), Some(mb)) = (ma, mb) {
+            let (x, y) = (ma.clone(), mb.clone());
+            timed!("cmp", move || (x.cmp(&y), y.cmp(&x), x == y, hash_of(&x) == hash_of(&y)));
+            let (r, x, y) = (a.clone(), ma.clone(), mb.clone());
+            timed!("satisfies", move || (r.satisfies(&x), r.satisfies(&y)));
+            let (x, y) = (ma.clone(), mb.clone());
+            timed!("diff", move || x.diff(&y).is_some());
+            let x = ma.clone();
+            timed!("to_string", move || x.to_string().len());
+        }
+        let (x, y) = (a.clone(), b.clone());
+        timed!("intersect", move || (x.intersect(&y).is_some(), y.intersect(&x).is_some(), x.intersect(&x).is_some()));
+        let (x, y) = (a.clone(), b.clone());
+        timed!("difference", move || (x.difference(&y).is_some(), y.difference(&x).is_some(), x.difference(&x).is_some()));
+        let (x, y) = (a.clone(), b.clone());
+        timed!("allows_any", move || (x.allows_any(&y), y.allows_any(&x)));
+        let (x, y) = (a.clone(), b.clone());
+        timed!("allows_all", move || (x.allows_all(&y), y.allows_all(&x), x.allows_all(&x)));
+        let x = a.clone();
+        timed!("to_string", move || x.to_string().len());
+        self.emit(json!({"ev":"deepops","unit":bytes(&id),"alts":n,"ops":ops}));
+    }
+
     // ------------------------------------------------------------ cases
     pub fn run_case(&mut self, case: &Value) {
         for r in self.regs.iter_mut() {
@@ -1239,6 +1301,7 @@ impl<W: Write> Ctx<W> {
             }
             "timing" => self.timing(case),
             "deepops" => self.deepops(case),
+            "deeptags" => self.deeptags(case),
             "steps" => {
                 if let Some(steps) = case.get("steps").and_then(|x| x.as_array()) {
                     for s in steps {
@@ -1292,8 +1355,19 @@ impl<W: Write> Ctx<W> {
                             list.reverse();
                             let cut = list.len() / 3;
                             list.rotate_left(cut);
-                            self.step(&json!({"c":"maxsat","a":1,"list":list}));
+                            self.step(&json!({"c":"maxsat","a":1,"list":list.clone()}));
                             self.step(&json!({"c":"maxsat","a":1,"list":[]}));
+                            // the list in ascending and in descending order (callers often pass a sorted list of releases)
+                            let mut vs: Vec<Version> = list.iter().filter_map(ver_from_json).collect();
+                            vs.truncate(40);
+                            vs.sort();
+                            let asc: Vec<Value> = vs.iter().map(ver_to_json).collect();
+                            self.step(&json!({"c":"maxsat","a":1,"list":asc.clone()}));
+                            let desc: Vec<Value> = asc.iter().rev().cloned().collect();
+                            self.step(&json!({"c":"maxsat","a":1,"list":desc}));
+                            // and against Range::any(), which admits no prerelease
+                            self.step(&json!({"c":"rany","dst":3}));
+                            self.step(&json!({"c":"maxsat","a":3,"list":asc}));
                         }
                         _ => self.skip("unknown-then"),
                     }
